@@ -438,10 +438,22 @@ pub fn oracle_c08(scn: &Scenario, t: &Trace, st: &mut ExploreStats) -> Vec<Viola
     let Some((fault, _)) = &t.fault else { return out };
     let choices = t.choice_names();
     // did the client run into the fault?
-    let garbage_read = matches!(fault, Ev::Garbage) && t.read_pos >= t.s2c.len();
+    // (the malformed line is the last 11 bytes of the stream; the client may stop reading in the
+    // middle of it once the line cannot become valid any more)
+    let garbage_read = matches!(fault, Ev::Garbage) && t.read_pos + 11 > t.s2c.len();
     let ended = t.saw_eof || t.saw_read_err || t.saw_write_err || garbage_read || t.handles_dropped;
     if !ended {
         st.count("fault_never_noticed");
+        // a client that is alive always has a read outstanding (idling or waiting for a reply), or
+        // gets back to one after its re-idle delay: a peer close, a reset, a read error or garbage
+        // cannot stay unnoticed until the end of the drain. (A write error is only met on a write.)
+        if matches!(fault, Ev::Close(_) | Ev::CloseRst(_) | Ev::ReadErr | Ev::Garbage) && matches!(t.connect_result, Some(Ok(_))) {
+            out.push(Violation::new(
+                "C08/connection-end-not-noticed",
+                format!("{} went unnoticed: after the drain (everything delivered, ticks) the client has still not run into it, is_connection_closed() = {:?} (choices {:?})", fault.name(), t.closed_flag, choices),
+                Value::Null,
+            ));
+        }
         return out;
     }
     st.count(&format!("ended_by_{}", match fault {
@@ -527,7 +539,7 @@ pub fn s1(tier: Tier) -> Scenario {
     let mut s = Scenario::new(
         "S1-two-callers-list-error",
         vec![
-            caller(vec![Op::Raw("cmd A1".into()), Op::RawList(vec!["cmd A2a".into(), "fail A2b".into(), "cmd A2c".into()])]),
+            caller(vec![Op::Raw("cmd A1".into()), Op::RawList(vec!["cmd A2a".into(), "partialfail A2b".into(), "cmd A2c".into()])]),
             caller(vec![Op::Raw("cmd B1".into())]),
         ],
     );
@@ -620,7 +632,7 @@ pub fn micro_fault(tier: Tier) -> Scenario {
 pub fn s5(_tier: Tier) -> Scenario {
     let mut s = Scenario::new(
         "S5-three-callers",
-        vec![caller(vec![Op::Raw("cmd A1".into())]), caller(vec![Op::RawList(vec!["cmd B1a".into(), "cmd B1b".into()])]), caller(vec![Op::Raw("fail C1".into()), Op::Raw("cmd C2".into())])],
+        vec![caller(vec![Op::Raw("cmd A1".into())]), caller(vec![Op::RawList(vec!["cmd B1a".into(), "cmd B1b".into()])]), caller(vec![Op::Raw("partialfail C1".into()), Op::RawList(vec!["cmd C2a".into(), "fail C2b".into()])])],
     );
     s.notify_names = vec!["player"];
     s.notify_budget = 1;
@@ -916,7 +928,10 @@ pub fn lazy_cross_check(tier: Tier, oracle: &Oracle) -> (Value, Violations) {
             for h in l.projections.difference(&e.projections).take(3) {
                 eprintln!("lazy-only trace, e.g. choices {:?}", l.projection_examples.get(h));
             }
-            machinery_error(&format!("eager-server reduction refuted on {}: {missing} client-observable traces of the lazy server do not occur with the eager server", eager.name));
+            // Not a verdict and not fatal: it says that for THIS tree the eager server does not stand
+            // for the lazy one (e.g. code whose behaviour depends on how long a reply takes); the
+            // violations found by either exploration are still real.
+            println!("WARNING: eager-server reduction not confirmed on {}: {missing} client-observable traces of the lazy server do not occur with the eager server", eager.name);
         }
         viol.merge(e.viol);
         viol.merge(l.viol);
